@@ -89,10 +89,10 @@ func varnames(tup *types.Tuple) []string {
 func stripVarName(v *types.Var) *types.Var {
 	return types.NewVar(v.Pos(), v.Pkg(), "", v.Type())
 }
-func outs(num int, last string) string {
+func outs(params *types.Tuple, num int, last string) string {
 	outs := make([]string, num)
 	for i := 0; i < num-1; i++ {
-		outs[i] = fmt.Sprintf("out%d", i)
+		outs[i] = derive.UnusedName(fmt.Sprintf("out%d", i), params)
 	}
 	outs[num-1] = last
 	return strings.Join(outs, ", ")
@@ -122,20 +122,24 @@ func (g *gen) genFuncFor(deriveFuncName string, ftyp *types.Signature) error {
 	newResultType := types.NewTuple(mutable...)
 	newSigType := types.NewSignature(nil, ftyp.Params(), newResultType, ftyp.Variadic())
 
+	params := newSigType.Params()
+	err := derive.UnusedName("err", params)
+	f := derive.UnusedName("f", params)
+	success := derive.UnusedName("success", params)
 	p.P("")
 	p.P("// %s transforms the given function's last bool type into an error type. The transformed function returns the given error when the result of the given function is false, otherwise it returns nil.", deriveFuncName)
-	p.P("func %s(err error, f %s) %s {", deriveFuncName, g.TypeString(ftyp), g.TypeString(newSigType))
+	p.P("func %s(%s error, %s %s) %s {", deriveFuncName, err, f, g.TypeString(ftyp), g.TypeString(newSigType))
 	p.In()
 	p.P("return %s {", g.TypeString(newSigType))
 	p.In()
-	as := varnames(newSigType.Params())
-	p.P("%s := f(%s)", outs(rlen, "success"), strings.Join(as, ", "))
-	p.P("if success {")
+	as := varnames(params)
+	p.P("%s := %s(%s)", outs(params, rlen, success), f, strings.Join(as, ", "))
+	p.P("if %s {", success)
 	p.In()
-	p.P("return %s", outs(rlen, "nil"))
+	p.P("return %s", outs(params, rlen, "nil"))
 	p.Out()
 	p.P("}")
-	p.P("return %s", outs(rlen, "err"))
+	p.P("return %s", outs(params, rlen, err))
 	p.Out()
 	p.P("}")
 	p.Out()
